@@ -692,9 +692,9 @@ def accessor_contracts(prog):
                     if b is None or (b == "1") != (n in NEG_VARIANTS):
                         errs.append("is_neg(%s) = %s" % (n, show(val)))
             if not (NEG_VARIANTS & covered):
-                errs.append("no complemented variant is recognised")
+                errs.append("?no complemented variant is recognised")
         else:
-            errs.append("is_neg is not a match on the variant: %s" % show(r)[:80])
+            errs.append("?is_neg is not a match on the variant: %s" % show(r)[:80])
         out.append(inst("CP", "%s::is_neg:contract" % adt, VIOLATION if errs else OK, fn, None,
                         "; ".join(errs[:3]) if errs else "is_neg is true exactly for the complemented variants"))
     return out
@@ -836,7 +836,7 @@ def hash_sign(prog):
                     if not (mir.is_call(t, "cached_semantic_hash") and not mir.is_call(t, "negate")):
                         errs.append("hash of a regular pointer (%s) is %s" % (nme, show(t)[:80]))
         if n < 2:
-            errs.append("variant arms not recognised")
+            errs.append("?variant arms not recognised")
         out.append(inst("CP", "%s::cached_semantic_hash:sign" % adt, VIOLATION if errs else OK, fn, None,
                         "; ".join(errs[:2]) if errs else "H(¬p) = negate(H(p)); regular pointers hash their node"))
     # builders: a node found under the negated hash is returned complemented
@@ -902,7 +902,7 @@ def serializer_flags(prog):
         errs.append("a returned pointer is not built for the current edge (%s): its complement flag is that of another "
                     "edge to the same node" % show(t)[:70])
     if n < 2:
-        errs.append("expected the revisit and the first-visit path to build Ptr{index, compl}")
+        errs.append("?expected the revisit and the first-visit path to build Ptr{index, compl}")
     out.append(inst("CP", "%s:compl-flag" % fn.npath, VIOLATION if errs else OK, fn, None,
                     "; ".join(errs) if errs else "every emitted pointer carries compl = is_neg(ptr)"))
     fn = prog.find1(name="serialize_helper", self_adt="serialize::ser_sdd::SDDSerializer", unit="rsdd-lib")
@@ -934,7 +934,7 @@ def serializer_flags(prog):
             alts = {p_: strip(v) for p_, v in c[2]}
             sw = [d for d, (ct, vm) in te.switch_term.items() if strip(ct) == ("discr", ("param", 1)) and vm and cfg.dominates(d, join)]
             if not sw or not all(v[0] == "const" for v in alts.values()):
-                errs.append("compl flag shape not recognised: %s" % show(c)[:80])
+                errs.append("?compl flag shape not recognised: %s" % show(c)[:80])
             else:
                 d = min(sw, key=lambda x: cfg.rpo_index[x])
                 vm = te.switch_term[d][1]
